@@ -27,3 +27,51 @@ B('C19', 'verification-failure-swallowed-nothing-moved', DTK,
                 Ok(())
             }
         }""", 'a failed verification is turned into Ok(()) but nothing is moved and the temp dir is removed: the restored directory still holds only verified files')
+
+STMB = 'mithril-stm/src/'
+B('C06', 'vk-ord-array-cmp', STMB + 'signature_scheme/bls_multi_signature/verification_key.rs',
+  """        let self_bytes = self.to_bytes();
+        let other_bytes = other.to_bytes();
+        let mut result = Ordering::Equal;
+
+        for (i, j) in self_bytes.iter().zip(other_bytes.iter()) {
+            result = i.cmp(j);
+            if result != Ordering::Equal {
+                return result;
+            }
+        }
+
+        result
+    }""", """        self.to_bytes().cmp(&other.to_bytes())
+    }""", 'lexicographic comparison of the same two complete encodings, written with the array Ord')
+
+IDBB = 'internal/cardano-node/mithril-cardano-node-internal-database/src/'
+B('C12', 'update-cache-for-loop', IDBB + 'digesters/cardano_immutable_digester.rs',
+  """            let new_cached_entries = computed_immutables_digests
+                .entries
+                .iter()
+                .filter(|(file, _hash)| {
+                    computed_immutables_digests
+                        .new_cached_entries
+                        .contains(&file.filename)
+                })
+                .map(|(file, hash)| (file.filename.clone(), hash.clone()))
+                .collect();
+""", """            let mut new_cached_entries = Vec::new();
+            for (file, hash) in computed_immutables_digests.entries.iter() {
+                if computed_immutables_digests
+                    .new_cached_entries
+                    .contains(&file.filename)
+                {
+                    new_cached_entries.push((file.filename.clone(), hash.clone()));
+                }
+            }
+""", 'the same per-entry pairs built by a for loop instead of an iterator chain')
+B('C12', 'walker-depth-order', IDBB + 'entities/immutable_file.rs',
+  """        .min_depth(1)
+        .max_depth(1)
+        .into_iter()
+        .filter_entry(is_immutable)""", """        .max_depth(1)
+        .min_depth(1)
+        .into_iter()
+        .filter_entry(is_immutable)""", 'builder calls swapped')
